@@ -172,6 +172,9 @@ type RespProg struct {
 	EntryDN []byte       `json:"entry_dn,omitempty"`
 	Opts    []OptSpec    `json:"opts,omitempty"`
 	Setters []SetterSpec `json:"setters,omitempty"`
+	// Phases: after the first Write the SAME response object is modified by the
+	// setters of each phase and written again (one more frame per phase).
+	Phases [][]SetterSpec `json:"phases,omitempty"`
 }
 
 var ctorKinds = []string{"general", "bind", "searchdone", "entry", "extended", "modify"}
@@ -243,14 +246,42 @@ func genRespProg(foreign, big bool) *rapid.Generator[RespProg] {
 	})
 }
 
+// genSetter draws one setter call for the constructor.
+func genSetter(ctor string, big bool) *rapid.Generator[SetterSpec] {
+	return rapid.Custom(func(t *rapid.T) SetterSpec {
+		s := SetterSpec{Kind: rapid.SampledFrom(settersOf[ctor]).Draw(t, "psetter")}
+		switch s.Kind {
+		case "code":
+			s.Int = genResultCode().Draw(t, "pcode")
+		case "diag", "matched", "name":
+			if big {
+				s.Bytes = genBytesBig().Draw(t, "pbytes")
+			} else {
+				s.Bytes = genBytes().Draw(t, "pbytes")
+			}
+		case "controls":
+			s.Ctls = rapid.SliceOfN(genCtl(), 0, 3).Draw(t, "pctls")
+		case "addattr":
+			s.Attr = wire.Attr{Type: genName().Draw(t, "paname"), Vals: genVals(t, "pavals", big)}
+		}
+		return s
+	})
+}
+
 type resultSetter interface {
 	SetResultCode(int)
 	SetDiagnosticMessage(string)
 	SetMatchedDN(string)
 }
 
-// Build runs the program against a request and returns the response to write.
+// Build runs the program against a request and returns the response to write
+// together with a function that applies further setters to the same object.
 func (p RespProg) Build(r *gldap.Request) (gldap.Response, error) {
+	resp, _, err := p.BuildWithApply(r)
+	return resp, err
+}
+
+func (p RespProg) BuildWithApply(r *gldap.Request) (gldap.Response, func([]SetterSpec) error, error) {
 	var opts []gldap.Option
 	for _, o := range p.Opts {
 		opts = append(opts, o.Option())
@@ -281,46 +312,52 @@ func (p RespProg) Build(r *gldap.Request) (gldap.Response, error) {
 		x := r.NewModifyResponse(opts...)
 		resp, rs = x, x
 	default:
-		return nil, fmt.Errorf("unknown ctor %s", p.Ctor)
+		return nil, nil, fmt.Errorf("unknown ctor %s", p.Ctor)
 	}
-	for _, s := range p.Setters {
-		switch s.Kind {
-		case "code":
-			rs.SetResultCode(s.Int)
-		case "diag":
-			rs.SetDiagnosticMessage(string(s.Bytes))
-		case "matched":
-			rs.SetMatchedDN(string(s.Bytes))
-		case "name":
-			if ext != nil {
-				ext.SetResponseName(gldap.ExtendedOperationName(s.Bytes))
-			}
-		case "controls":
-			var cs []gldap.Control
-			for _, c := range s.Ctls {
-				g, err := c.Gldap()
-				if err != nil {
-					return nil, fmt.Errorf("control constructor: %w", err)
+	apply := func(setters []SetterSpec) error {
+		for _, s := range setters {
+			switch s.Kind {
+			case "code":
+				rs.SetResultCode(s.Int)
+			case "diag":
+				rs.SetDiagnosticMessage(string(s.Bytes))
+			case "matched":
+				rs.SetMatchedDN(string(s.Bytes))
+			case "name":
+				if ext != nil {
+					ext.SetResponseName(gldap.ExtendedOperationName(s.Bytes))
 				}
-				cs = append(cs, g)
-			}
-			if bind != nil {
-				bind.SetControls(cs...)
-			}
-			if done != nil {
-				done.SetControls(cs...)
-			}
-		case "addattr":
-			if entry != nil {
-				vals := []string{}
-				for _, v := range s.Attr.Vals {
-					vals = append(vals, string(v))
+			case "controls":
+				var cs []gldap.Control
+				for _, c := range s.Ctls {
+					g, err := c.Gldap()
+					if err != nil {
+						return fmt.Errorf("control constructor: %w", err)
+					}
+					cs = append(cs, g)
 				}
-				entry.AddAttribute(string(s.Attr.Type), vals)
+				if bind != nil {
+					bind.SetControls(cs...)
+				}
+				if done != nil {
+					done.SetControls(cs...)
+				}
+			case "addattr":
+				if entry != nil {
+					vals := []string{}
+					for _, v := range s.Attr.Vals {
+						vals = append(vals, string(v))
+					}
+					entry.AddAttribute(string(s.Attr.Type), vals)
+				}
 			}
 		}
+		return nil
 	}
-	return resp, nil
+	if err := apply(p.Setters); err != nil {
+		return nil, nil, err
+	}
+	return resp, apply, nil
 }
 
 // panicSite returns "function-name" of the innermost gldap frame (or the
